@@ -701,7 +701,8 @@ fn spell_table(rng: &mut Rng, listed: bool) -> (String, &'static str) {
 
 /// A statement that mentions relation `rel` in one of the positions a relation can appear in.
 fn relation_statement(rng: &mut Rng, rel: &str, tag: &str) -> (String, &'static str) {
-    match rng.below(19) {
+    match rng.below(20) {
+        19 => (format!("SELECT '{}' FROM ONLY {}", tag, rel), "from_only"),
         17 => (format!("INSERT INTO open_t TABLE {} /* {} */", rel, tag), "insert_table_expression"),
         18 => (format!("SELECT '{}' UNION ALL TABLE {}", tag, rel), "union_table_expression"),
         12 => (format!("COPY {} TO STDOUT /* {} */", rel, tag), "copy_to"),
